@@ -59,7 +59,7 @@ class C20(CheckBase):
                 cst = sorted(s_.Handle for s_ in m.context_states.objects)
                 cdescr = sorted(d.Handle for d in m.descriptions.objects if d.is_context_descriptor)
                 mds = sorted(d.Handle for d in m.descriptions.objects if d.parent_handle is None)
-                pool = (descr + cst * 2 + mds + ['unknown.h']) if k == 'mdstate' else (cst * 3 + cdescr * 3 + mds * 2 + descr[:3] + ['unknown.h'])
+                pool = (descr + cst * 2 + mds + ['unknown.h']) if k == 'mdstate' else (cst * 3 + cdescr * 3 + mds * 2 + rng.sample(descr, min(8, len(descr))) + ['unknown.h'])
                 hs = None
                 if rng.random() < 0.8:
                     hs = [rng.choice(pool) for _ in range(rng.randint(1, 5))]
@@ -68,12 +68,12 @@ class C20(CheckBase):
                 st['handles'] = hs
                 nq += 1
             elif k == 'addtext':
-                st['texts'] = [{'ref': rng.choice(refs), 'lang': rng.choice(langs), 'version': rng.randint(1, 4),
+                st['texts'] = [{'ref': rng.choice(refs), 'lang': rng.choice(langs), 'version': rng.randint(0, 4),
                                 'width': rng.choice(WIDTHS + [None]),
                                 'text': '\n'.join(['line'] * rng.randint(1, 4))} for _ in range(rng.randint(1, 5))]
             elif k == 'text':
                 st['refs'] = rng.choice([None, None, [rng.choice(refs + ['ref.unknown']) for _ in range(rng.randint(1, 3))]])
-                st['version'] = rng.choice([None, None, 1, 2, 3, 4, 9])
+                st['version'] = rng.choice([None, None, 0, 0, 1, 2, 3, 4, 9])
                 st['langs'] = rng.choice([None, None, [rng.choice(langs + ['xx'])], langs[:2]])
                 st['widths'] = rng.choice([None, None, None, [rng.choice(WIDTHS)], ['s', 'xl']])
                 st['lines'] = rng.choice([None, None, None, [rng.randint(1, 4)], [1, 3]])
